@@ -39,19 +39,19 @@ var nodeConst = [maxNode]int32{11, 23, 37, 53}
 // Spec is JSON-marshalable (it is the replay object of a violation).
 type Spec struct {
 	Fam      string   `json:"fam"`
-	N        int      `json:"n"`               // defined node functions
-	K        int      `json:"k"`               // imported functions (0/1)
-	Edges    uint32   `json:"edges"`           // bit i*5+j: node i calls target j (j < N: node j, j == 4: the import)
-	Roots    [5]uint8 `json:"roots"`           // per function (0..3 nodes, 4 import): rootExport | rootElem
-	Start    int      `json:"start"`           // -1 none, else function (4 = import)
-	Indirect bool     `json:"indirect"`        // calls whose target sits in the table go through call_indirect
-	Place    int      `json:"place"`           // index into placements(): where call sites sit
-	Extras   uint8    `json:"extras"`          // 1 extra globals, 2 memory, 4 data (needs memory)
-	Style    int      `json:"style"`           // watgen style bits
-	ElemJoin bool     `json:"elem_join"`       // one elem segment for all entries (else one segment per entry)
-	Anon     int      `json:"anon"`            // -1 none; else the anonymous exported leaf is defined before node Anon (N = after all nodes)
-	TableOps bool     `json:"table_ops"`       // exported "copy": table.get/table.set slot 1 -> slot 0
-	NoSupp   bool     `json:"no_support"`      // no get/reset/tramp exports (bare module)
+	N        int      `json:"n"`          // defined node functions
+	K        int      `json:"k"`          // imported functions (0/1)
+	Edges    uint32   `json:"edges"`      // bit i*5+j: node i calls target j (j < N: node j, j == 4: the import)
+	Roots    [5]uint8 `json:"roots"`      // per function (0..3 nodes, 4 import): rootExport | rootElem
+	Start    int      `json:"start"`      // -1 none, else function (4 = import)
+	Indirect bool     `json:"indirect"`   // calls whose target sits in the table go through call_indirect
+	Place    int      `json:"place"`      // index into placements(): where call sites sit
+	Extras   uint8    `json:"extras"`     // 1 extra globals, 2 memory, 4 data (needs memory)
+	Style    int      `json:"style"`      // watgen style bits
+	ElemJoin bool     `json:"elem_join"`  // one elem segment for all entries (else one segment per entry)
+	Anon     int      `json:"anon"`       // -1 none; else the anonymous exported leaf is defined before node Anon (N = after all nodes)
+	TableOps bool     `json:"table_ops"`  // exported "copy": table.get/table.set slot 1 -> slot 0
+	NoSupp   bool     `json:"no_support"` // no get/reset/tramp exports (bare module)
 }
 
 func (s *Spec) edge(i, j int) bool { return s.Edges&(1<<(uint(i)*5+uint(j))) != 0 }
@@ -84,13 +84,13 @@ type frame byte
 const (
 	frBlock frame = iota
 	frLoop
-	frThen     // i32.const 1; if; X; end            (runs)
-	frElse     // i32.const 0; if; else; X; end      (runs)
-	frDeadThen // i32.const 0; if; X; end            (never runs)
-	frDeadElse // i32.const 1; if; else; X; end      (never runs)
-	frAfterBr  // block; br 0; X; end                (never runs)
+	frThen      // i32.const 1; if; X; end            (runs)
+	frElse      // i32.const 0; if; else; X; end      (runs)
+	frDeadThen  // i32.const 0; if; X; end            (never runs)
+	frDeadElse  // i32.const 1; if; else; X; end      (never runs)
+	frAfterBr   // block; br 0; X; end                (never runs)
 	frAfterBrIf // block; i32.const 1; br_if 0; X; end (never runs)
-	frAfterUnr // i32.const 0; if; unreachable; X; end (never runs)
+	frAfterUnr  // i32.const 0; if; unreachable; X; end (never runs)
 	numFrames
 )
 
@@ -237,12 +237,12 @@ func mark(c int32) []wg.Instr {
 }
 
 var (
-	sigVoid   = wg.FuncType{}
-	sigGetI32 = wg.FuncType{Results: []wg.ValType{wg.I32}}
-	sigGetI64 = wg.FuncType{Results: []wg.ValType{wg.I64}}
-	sigGetF64 = wg.FuncType{Results: []wg.ValType{wg.F64}}
+	sigVoid    = wg.FuncType{}
+	sigGetI32  = wg.FuncType{Results: []wg.ValType{wg.I32}}
+	sigGetI64  = wg.FuncType{Results: []wg.ValType{wg.I64}}
+	sigGetF64  = wg.FuncType{Results: []wg.ValType{wg.F64}}
 	sigI32Void = wg.FuncType{Params: []wg.ValType{wg.I32}}
-	sigI32I32 = wg.FuncType{Params: []wg.ValType{wg.I32}, Results: []wg.ValType{wg.I32}}
+	sigI32I32  = wg.FuncType{Params: []wg.ValType{wg.I32}, Results: []wg.ValType{wg.I32}}
 )
 
 const opI32Load8U wg.Op = 0x2d
